@@ -1,6 +1,6 @@
 CONSTANTS Ids = {1, 2, 3, 4}
           ReqBytes = {0, 64, 128}
-          MaxBrk = 36
+          MaxBrk = 32
 SPECIFICATION Spec
 CONSTRAINT BrkBound
 INVARIANTS Tiling FreeListShape AllFreedRestores Aligned
